@@ -1,8 +1,625 @@
-import Quanto.Spec.C05
-namespace Quanto
+/-
+Property C05 — operations on quantized tensors equal the same operations on the dequantized
+values: exactly when the operation only moves data, within float rounding when it rescales,
+within one step of the output scale when it re-quantizes; whenever the float program is valid the
+quantized program does not raise.
 
-/-- placeholder until the op proofs land -/
-theorem C05_detach_id (q : QB) : (match qbDetach q with | .qb r => r.size = q.size | _ => False) := by
-  simp [qbDetach]
+`QB.PerTensor q` (Proofs/C05/Lemmas.lean; the helper lemmas live in the namespace `Quanto.C05`) is the well-formedness of a per-tensor value:
+`q.axis = none`, 0-dimensional scale holding one value, data of the size announced by its shape
+(`C05_perTensor_iff`).  `q.deqFn c = symDeq q.F c (q.scale.get 0)`.
+-/
+import Proofs.C05.Cat
+import Proofs.C05.Rescale
+
+namespace Quanto
+open C05
+
+/-! ## A — movement operations commute with elementwise maps -/
+
+theorem C05_perTensor_iff (q : QB) :
+    q.PerTensor ↔ q.axis = none ∧ q.scale.shape = [] ∧ q.scale.data.size = 1 ∧
+      q.data.data.size = prod q.data.shape :=
+  ⟨fun h => ⟨h.axis, h.sshape, h.ssize, h.wf⟩, fun h => ⟨h.1, h.2.1, h.2.2.1, h.2.2.2⟩⟩
+
+/-- every movement operation commutes with every elementwise map -/
+theorem C05_move_map {α β : Type} [Inhabited α] [Inhabited β] (m : MoveOp) (t : T α) (f : α → β)
+    (hwf : t.data.size = prod t.shape) : (m.apply t).map (T.map f) = m.apply (t.map f) :=
+  move_map m t f hwf
+
+theorem C05_cat_map {α β : Type} [Inhabited α] [Inhabited β] (ts : List (T α)) (f : α → β)
+    (hwf : ∀ t ∈ ts, t.data.size = prod t.shape) (dim : Int) :
+    (T.cat? ts dim).map (T.map f) = T.cat? (ts.map (T.map f)) dim :=
+  T.cat?_map ts f hwf dim
+
+theorem C05_stack_map {α β : Type} [Inhabited α] [Inhabited β] (ts : List (T α)) (f : α → β)
+    (hwf : ∀ t ∈ ts, t.data.size = prod t.shape) (dim : Int) :
+    (T.stack? ts dim).map (T.map f) = T.stack? (ts.map (T.map f)) dim :=
+  T.stack?_map ts f hwf dim
+
+theorem C05_split_map {α β : Type} [Inhabited α] [Inhabited β] (t : T α) (f : α → β)
+    (hwf : t.data.size = prod t.shape) (sz : Nat) (dim : Int) :
+    (t.split? sz dim).map (List.map (T.map f)) = (t.map f).split? sz dim :=
+  T.split?_map t f hwf sz dim
+
+/-- whether a movement operation raises, and the shape of its result, depend on the shape of the
+input only -/
+theorem C05_move_shape_only {α β : Type} [Inhabited α] [Inhabited β] (m : MoveOp) (t : T α) (t' : T β)
+    (hs : t.shape = t'.shape) : (m.apply t).map T.shape = (m.apply t').map T.shape :=
+  move_shape_only m t t' hs
+
+/-- movement operations preserve well-formedness -/
+theorem C05_move_wf {α : Type} [Inhabited α] (m : MoveOp) (t t' : T α)
+    (hwf : t.data.size = prod t.shape) (h : m.apply t = some t') : t'.data.size = prod t'.shape :=
+  move_wf m t t' hwf h
+
+/-! ## B — per-tensor dequantization is an elementwise map -/
+
+theorem C05_deq_per_tensor (q : QB) (hq : q.PerTensor) :
+    q.deq = .ok (q.data.map fun c => symDeq q.F c (q.scale.get 0)) :=
+  deq_per_tensor q hq
+
+/-! ## T1, T2 — one movement operation -/
+
+/-- T1: on a per-tensor value the quantized movement operation succeeds exactly when the float one
+does, and its result dequantizes to the moved dequantized tensor (bit for bit). -/
+theorem C05_move_commutes (q : QB) (hq : q.PerTensor) (m : MoveOp) (d : T FV) (hd : q.deq = .ok d) :
+    (∀ d', m.apply d = some d' →
+      ∃ r, qbMove m q = .qb r ∧ r.deq = .ok d' ∧ r.axis = none ∧ r.size = d'.shape ∧ r.PerTensor) ∧
+    (m.apply d = none → qbMove m q = .fail .runtimeError) := by
+  obtain ⟨h1, h2⟩ := move_commutes_core q hq m d hd
+  refine ⟨fun d' h => ?_, h2⟩
+  obtain ⟨r, e1, e2, e3, e4, -⟩ := h1 d' h
+  exact ⟨r, e1, e3, e2.axis, e4, e2⟩
+
+/-- T1 (per-axis): the implementation dequantizes, then moves. -/
+theorem C05_move_per_axis (q : QB) (hq : q.axis ≠ none) (m : MoveOp) (d : T FV) (hd : q.deq = .ok d) :
+    qbMove m q = optToVal q.F (m.apply d) := by
+  unfold qbMove
+  have : q.isPerTensor = false := by
+    unfold QB.isPerTensor
+    cases h : q.axis with
+    | none => exact absurd h hq
+    | some b => rfl
+  rw [this, hd]
+  rfl
+
+/-- T2: when the float program is valid the quantized one does not raise. -/
+theorem C05_no_spurious_raise_move (q : QB) (hq : q.PerTensor) (m : MoveOp) (d d' : T FV)
+    (hd : q.deq = .ok d) (h : m.apply d = some d') :
+    (match qbMove m q with | .fail _ => False | _ => True) := by
+  obtain ⟨r, hr, -⟩ := (C05_move_commutes q hq m d hd).1 d' h
+  rw [hr]
+  trivial
+
+/-- T2 (per-axis). -/
+theorem C05_no_spurious_raise_move_per_axis (q : QB) (hq : q.axis ≠ none) (m : MoveOp) (d d' : T FV)
+    (hd : q.deq = .ok d) (h : m.apply d = some d') :
+    (match qbMove m q with | .fail _ => False | _ => True) := by
+  rw [C05_move_per_axis q hq m d hd, h]
+  trivial
+
+/-! ## T10 — programs of movement operations -/
+
+/-- T10: a program of movement operations of any length, run on a per-tensor quantized value,
+succeeds whenever the float program does, and its result dequantizes to the float result. -/
+theorem C05_programs_move (prog : List MoveOp) (q : QB) (hq : q.PerTensor) (d d' : T FV)
+    (hd : q.deq = .ok d) (h : runF prog d = some d') :
+    ∃ r, runQ prog (.qb q) = .qb r ∧ r.deq = .ok d' ∧ r.PerTensor ∧
+      (q.size = q.data.shape → r.size = d'.shape) := by
+  obtain ⟨r, h1, h2, h3, h4⟩ := programs_move_core prog q hq d d' hd h
+  exact ⟨r, h1, h3, h2, h4⟩
+
+/-- `aten.t` on a per-tensor matrix: the codes are transposed, the result dequantizes to the
+transposed dequantized tensor. -/
+theorem C05_t_commutes (q : QB) (hq : q.PerTensor) (d0 d1 : Nat) (hsz : q.size = [d0, d1])
+    (d d' : T FV) (hd : q.deq = .ok d) (h : d.transpose? 0 1 = some d') :
+    ∃ r, qbT q = .qb r ∧ r.deq = .ok d' ∧ r.size = [d1, d0] := by
+  rw [deq_per_tensor q hq] at hd
+  injection hd with hd
+  subst hd
+  rw [← T.transpose?_map q.data q.deqFn hq.wf] at h
+  cases he : q.data.transpose? 0 1 with
+  | none => rw [he] at h; cases h
+  | some e =>
+    rw [he] at h
+    simp only [Option.map_some, Option.some.injEq] at h
+    subst h
+    have hr : QB.PerTensor { q with size := [d1, d0], data := e } :=
+      ⟨hq.axis, hq.sshape, hq.ssize, move_wf (.transpose 0 1) q.data e hq.wf he⟩
+    refine ⟨{ q with size := [d1, d0], data := e }, ?_, deq_per_tensor _ hr, rfl⟩
+    unfold qbT
+    rw [hsz]
+    simp only [he, hq.axis]
+
+/-- `detach` / `clone` keep the value. -/
+theorem C05_detach_id (q : QB) : qbDetach q = .qb q ∧ qbClone q = .qb q := ⟨rfl, rfl⟩
+
+/-! ## T3 — cat, stack, split -/
+
+/-- T3 (cat): two per-tensor int8 tensors with equal scales are concatenated on their codes; the
+result dequantizes to the concatenation of the dequantized tensors, and fails exactly when the
+float `cat` fails.  (`a.F = b.F`: `torch.equal` compares values, the model keeps the dtype of `a`.) -/
+theorem C05_cat_commutes (a b : QB) (ha : a.PerTensor) (hb : b.PerTensor) (hF : a.F = b.F)
+    (hQa : a.Q = .qint8) (hQb : b.Q = .qint8) (hs : scaleEqual a.scale b.scale = true)
+    (da db : T FV) (hda : a.deq = .ok da) (hdb : b.deq = .ok db) (dim : Int) :
+    (∀ d', T.cat? [da, db] dim = some d' →
+      ∃ r, qbCat [.qb a, .qb b] dim = .qb r ∧ r.deq = .ok d' ∧ r.size = d'.shape) ∧
+    (T.cat? [da, db] dim = none → qbCat [.qb a, .qb b] dim = .fail .runtimeError) := by
+  obtain ⟨h1, h2⟩ := cat_commutes_core a b ha hb hF hQa hQb hs da db hda hdb dim
+  refine ⟨fun d' h => ?_, h2⟩
+  obtain ⟨r, e1, -, e3, e4⟩ := h1 d' h
+  exact ⟨r, e1, e3, e4⟩
+
+/-- T3 (cat, fallback): otherwise the implementation dequantizes both, then concatenates. -/
+theorem C05_cat_fallback (a b : QB) (da db : T FV) (hda : a.deq = .ok da) (hdb : b.deq = .ok db)
+    (hp : (catQuantizedPath a b && !a.Q.isFloat) = false) (dim : Int) :
+    qbCat [.qb a, .qb b] dim = optToVal a.F (T.cat? [da, db] dim) :=
+  cat_fallback_core a b da db hda hdb hp dim
+
+/-- T3 (stack): same statement for `stack` (any 8-bit qtype). -/
+theorem C05_stack_commutes (fixed : Bool) (a b : QB) (ha : a.PerTensor) (hb : b.PerTensor)
+    (hF : a.F = b.F) (hQ : a.Q = b.Q) (hs : scaleEqual a.scale b.scale = true)
+    (da db : T FV) (hda : a.deq = .ok da) (hdb : b.deq = .ok db) (dim : Int) :
+    (∀ d', T.stack? [da, db] dim = some d' →
+      ∃ r, qbStack fixed [.qb a, .qb b] dim = .qb r ∧ r.deq = .ok d' ∧ r.size = d'.shape) ∧
+    (T.stack? [da, db] dim = none → qbStack fixed [.qb a, .qb b] dim = .fail .runtimeError) := by
+  obtain ⟨h1, h2⟩ := stack_commutes_core fixed a b ha hb hF hQ hs da db hda hdb dim
+  refine ⟨fun d' h => ?_, h2⟩
+  obtain ⟨r, e1, -, e3, e4⟩ := h1 d' h
+  exact ⟨r, e1, e3, e4⟩
+
+/-- T3 (stack, repaired fallback): dequantize, then stack. -/
+theorem C05_stack_fallback (a b : QB) (da db : T FV) (hda : a.deq = .ok da) (hdb : b.deq = .ok db)
+    (hp : catQuantizedPath a b = false) (dim : Int) :
+    qbStack true [.qb a, .qb b] dim = optToVal a.F (T.stack? [da, db] dim) :=
+  stack_fallback_core a b da db hda hdb hp dim
+
+/-- T3 (split, repaired size): the chunks of a per-tensor value dequantize to the chunks of the
+dequantized tensor, each reports the shape of its own data, and `split` fails exactly when the
+float `split` fails. -/
+theorem C05_split_commutes (q : QB) (hq : q.PerTensor) (d : T FV) (hd : q.deq = .ok d) (sz : Nat)
+    (dim : Int) :
+    (∀ ds, d.split? sz dim = some ds →
+      ∃ rs : List QB, qbSplit true q sz dim = .listV (rs.map Val.qb) ∧
+        rs.map QB.deq = ds.map Except.ok ∧ rs.map QB.size = ds.map T.shape) ∧
+    (d.split? sz dim = none → qbSplit true q sz dim = .fail .runtimeError) := by
+  obtain ⟨h1, h2⟩ := split_commutes_core q hq d hd sz dim
+  refine ⟨fun ds h => ?_, h2⟩
+  obtain ⟨rs, e1, e2, e3, -⟩ := h1 ds h
+  exact ⟨rs, e1, e2, e3⟩
+
+/-- defect (repaired): the original fallback of `stack` raised `TypeError` — for every list that
+does not take the quantized path, e.g. any three quantized tensors. -/
+theorem C05_counterexample_stack_unfixed (a b c : QB) (dim : Int) :
+    qbStack false [.qb a, .qb b, .qb c] dim = .fail .typeError := rfl
+
+/-- defect (repaired), two tensors with different scales. -/
+theorem C05_counterexample_stack_unfixed_pair (a b : QB) (hp : catQuantizedPath a b = false)
+    (dim : Int) : qbStack false [.qb a, .qb b] dim = .fail .typeError := by
+  simp only [qbStack]
+  rw [hp]
+  rfl
+
+/-- defect (repaired): with the original code every chunk of `split` reports the size of the
+un-split input. -/
+theorem C05_counterexample_split_unfixed :
+    ∃ r1 r2, qbSplit false
+        ⟨f16, .qint8, none, [4], ⟨[4], #[.fin 1, .fin 2, .fin 3, .fin 4]⟩, ⟨[], #[.fin (1 / 4)]⟩⟩ 2 0
+        = .listV [.qb r1, .qb r2] ∧
+      r1.size = [4] ∧ r1.data.shape = [2] ∧ r2.size = [4] ∧ r2.data.shape = [2] :=
+  ⟨_, _, rfl, rfl, rfl, rfl, rfl⟩
+
+/-! ## T4 — neg -/
+
+/-- T4: negating int8 codes different from -128 commutes with dequantization. -/
+theorem C05_neg_commutes (q : QB) (hq : q.PerTensor) (hF : WorkFmt q.F) (hQ : q.Q = .qint8)
+    (hc : ∀ v ∈ q.data.data, ∃ c : Int, v = .fin c ∧ -127 ≤ c ∧ c ≤ 127)
+    (d : T FV) (hd : q.deq = .ok d) :
+    ∃ r, qbNeg q = .qb r ∧ r.deq = .ok (d.map FV.neg) := by
+  rw [deq_per_tensor q hq] at hd
+  injection hd with hd
+  subst hd
+  have hfl : q.Q.isFloat = false := by rw [hQ]; rfl
+  have hr : QB.PerTensor { q with data := q.data.map negCode } :=
+    ⟨hq.axis, hq.sshape, hq.ssize, by rw [T.size_map]; exact hq.wf⟩
+  refine ⟨{ q with data := q.data.map negCode }, by simp [qbNeg, hfl], ?_⟩
+  rw [deq_per_tensor _ hr]
+  congr 1
+  show (q.data.map negCode).map _ = _
+  rw [T.map_map, T.map_map]
+  apply T.map_congr
+  intro v hv
+  obtain ⟨c, rfl, h1, h2⟩ := hc v hv
+  simp only [QB.deqFn, symDeq]
+  rw [negCode_int c h1 h2]
+  exact mul_neg_right q.F hF _ _
+
+/-- recorded finding: the code -128 wraps around — with scale 1/128 (float32) it dequantizes
+to -1, and so does its "negation", whereas the float program gives +1. -/
+theorem C05_counterexample_neg_minus_128 :
+    negCode (.fin (-128)) = .fin (-128) ∧
+    symDeq f32 (.fin (-128)) (.fin (1 / 128)) = .fin (-1) ∧
+    symDeq f32 (negCode (.fin (-128))) (.fin (1 / 128)) = .fin (-1) ∧
+    FV.neg (symDeq f32 (.fin (-128)) (.fin (1 / 128))) = .fin 1 := by
+  decide +kernel
+
+/-! ## T5 — relu -/
+
+/-- the float8 branch of `relu` is the float `relu` of the dequantized tensor (by definition) -/
+theorem C05_relu_float8_fallback (q : QB) (hQ : q.Q.isFloat = true) (d : T FV) (hd : q.deq = .ok d) :
+    qbRelu q = .plain q.F (d.map reluV) := by
+  unfold qbRelu
+  rw [if_pos hQ, hd]
+  rfl
+
+/-- T5: `relu` on int8 codes commutes with dequantization when the scale is positive. -/
+theorem C05_relu_commutes (q : QB) (hq : q.PerTensor) (hF : WorkFmt q.F) (hQ : q.Q = .qint8)
+    (s : Rat) (hs : q.scale.get 0 = .fin s) (hpos : 0 < s)
+    (hc : ∀ v ∈ q.data.data, ∃ c : Rat, v = .fin c) (d : T FV) (hd : q.deq = .ok d) :
+    ∃ r, qbRelu q = .qb r ∧ r.deq = .ok (d.map reluV) := by
+  rw [deq_per_tensor q hq] at hd
+  injection hd with hd
+  subst hd
+  have hfl : q.Q.isFloat = false := by rw [hQ]; rfl
+  have hr : QB.PerTensor { q with data := q.data.map reluCode } :=
+    ⟨hq.axis, hq.sshape, hq.ssize, by rw [T.size_map]; exact hq.wf⟩
+  refine ⟨{ q with data := q.data.map reluCode }, by simp [qbRelu, hfl], ?_⟩
+  rw [deq_per_tensor _ hr]
+  congr 1
+  show (q.data.map reluCode).map _ = _
+  rw [T.map_map, T.map_map]
+  apply T.map_congr
+  intro v hv
+  obtain ⟨c, rfl⟩ := hc v hv
+  simp only [QB.deqFn, symDeq, hs]
+  exact relu_elem q.F hF s hpos c
+
+/-- with a negative scale `relu` on the codes is wrong: scale -1/4, code -2 dequantizes to 1/2
+(kept by the float `relu`) but the code is zeroed; code 2 dequantizes to -1/2 (zeroed by the float
+`relu`) but the code is kept. -/
+theorem C05_counterexample_relu_negative_scale :
+    symDeq f16 (reluCode (.fin (-2))) (.fin (-1 / 4)) = .fin 0 ∧
+    reluV (symDeq f16 (.fin (-2)) (.fin (-1 / 4))) = .fin (1 / 2) ∧
+    symDeq f16 (reluCode (.fin 2)) (.fin (-1 / 4)) = .fin (-1 / 2) ∧
+    reluV (symDeq f16 (.fin 2) (.fin (-1 / 4))) = .fin 0 := by
+  decide +kernel
+
+/-! ## T6 — multiplication / division by a scalar -/
+
+/-- tensor level: `mul` by a scalar rescales the scale; the result dequantizes elementwise with
+the rescaled scale, while the float program multiplies each dequantized value. -/
+theorem C05_mul_scalar_deq (q : QB) (hq : q.PerTensor) (k : Rat) (d : T FV) (hd : q.deq = .ok d) :
+    ∃ r, qbMulScalar q k = .qb r ∧
+      r.deq = .ok (q.data.map fun c => q.F.mul (q.F.mul (.fin k) (q.scale.get 0)) c) ∧
+      d.map (fun v => q.F.mul (.fin k) v) =
+        q.data.map fun c => q.F.mul (.fin k) (q.F.mul (q.scale.get 0) c) := by
+  rw [deq_per_tensor q hq] at hd
+  injection hd with hd
+  subst hd
+  have hr : QB.PerTensor { q with scale := q.scale.map fun s => q.F.mul (.fin k) s } :=
+    ⟨hq.axis, hq.sshape, by rw [T.size_map]; exact hq.ssize, hq.wf⟩
+  refine ⟨_, rfl, ?_, ?_⟩
+  · rw [deq_per_tensor _ hr]
+    congr 2
+    funext c
+    simp only [QB.deqFn, symDeq]
+    rw [T.get_map _ _ _ (by rw [hq.ssize]; exact Nat.zero_lt_one)]
+  · rw [T.map_map]
+    rfl
+
+theorem C05_div_scalar_deq (q : QB) (hq : q.PerTensor) (k : Rat) (d : T FV) (hd : q.deq = .ok d) :
+    ∃ r, qbDivScalar q k = .qb r ∧
+      r.deq = .ok (q.data.map fun c => q.F.mul (q.F.div (q.scale.get 0) (.fin k)) c) ∧
+      d.map (fun v => q.F.div v (.fin k)) =
+        q.data.map fun c => q.F.div (q.F.mul (q.scale.get 0) c) (.fin k) := by
+  rw [deq_per_tensor q hq] at hd
+  injection hd with hd
+  subst hd
+  have hr : QB.PerTensor { q with scale := q.scale.map fun s => q.F.div s (.fin k) } :=
+    ⟨hq.axis, hq.sshape, by rw [T.size_map]; exact hq.ssize, hq.wf⟩
+  refine ⟨_, rfl, ?_, ?_⟩
+  · rw [deq_per_tensor _ hr]
+    congr 2
+    funext c
+    simp only [QB.deqFn, symDeq]
+    rw [T.get_map _ _ _ (by rw [hq.ssize]; exact Nat.zero_lt_one)]
+  · rw [T.map_map]
+    rfl
+
+/-- T6 (int8 codes): for a scale representable in the working format and an integer code with
+`|c| ≤ qmax ≤ 500`, the two results satisfy the executable rescaling relation `specRescale`. -/
+theorem C05_mul_scalar_rescale (F : Fmt) (hF : WorkFmt F) (qm k s : Rat) (hs : F.Rep s) (n : Int)
+    (hn : |(n : Rat)| ≤ qm) (hqm : qm ≤ 500) (yq rq : Rat)
+    (hy : F.mul (F.mul (.fin k) (.fin s)) (.fin n) = .fin yq)
+    (hr : F.mul (.fin k) (F.mul (.fin s) (.fin n)) = .fin rq) :
+    specRescale F qm k (.fin yq) (.fin rq) = true := by
+  apply specRescale_of_le
+  have h := rescale_mul_int F hF k s hs n yq rq hy hr
+  have hK : 0 ≤ |k| + (if |k| = 0 then 0 else 1 / |k|) := by
+    have := abs_nonneg k
+    split_ifs
+    · linarith
+    · positivity
+  have ha := int_allowance F.u F.eta qm n _ (u_eta_work F hF).1 F.eta_nonneg hn hqm hK
+  simp only [mul_zero, zero_add] at h
+  linarith
+
+theorem C05_div_scalar_rescale (F : Fmt) (hF : WorkFmt F) (qm k s : Rat) (hk : k ≠ 0) (hs : F.Rep s)
+    (n : Int) (hn : |(n : Rat)| ≤ qm) (hqm : qm ≤ 500) (yq rq : Rat)
+    (hy : F.mul (F.div (.fin s) (.fin k)) (.fin n) = .fin yq)
+    (hr : F.div (F.mul (.fin s) (.fin n)) (.fin k) = .fin rq) :
+    specRescale F qm k (.fin yq) (.fin rq) = true := by
+  apply specRescale_of_le
+  have h := rescale_div_int F hF k s hk hs n yq rq hy hr
+  have hK : 0 ≤ |k| + (if |k| = 0 then 0 else 1 / |k|) := by
+    have := abs_nonneg k
+    split_ifs
+    · linarith
+    · positivity
+  have ha := int_allowance F.u F.eta qm n _ (u_eta_work F hF).1 F.eta_nonneg hn hqm hK
+  simp only [mul_zero, zero_add] at h
+  linarith
+
+/-- T6 (any finite code, e.g. float8): the same relation with the constants that the generic
+rounding analysis yields: `5u` relative, `(251/250·qmax + 101/50 + 41/40·|k|)·η` absolute. -/
+theorem C05_mul_scalar_rescale_partial (F : Fmt) (hF : WorkFmt F) (qm k s c : Rat) (hc : |c| ≤ qm)
+    (yq rq : Rat) (hy : F.mul (F.mul (.fin k) (.fin s)) (.fin c) = .fin yq)
+    (hr : F.mul (.fin k) (F.mul (.fin s) (.fin c)) = .fin rq) :
+    |yq - rq| ≤ 5 * F.u * |rq| + (251 / 250 * qm + 101 / 50 + 41 / 40 * |k|) * F.eta := by
+  have h := rescale_mul_general F hF k s c yq rq hy hr
+  obtain ⟨hu, -⟩ := u_eta_work F hF
+  have hu0 := F.u_nonneg
+  have he := F.eta_nonneg
+  have hk := abs_nonneg k
+  have hc0 := abs_nonneg c
+  have h1 : (1 + F.u) * |c| ≤ 251 / 250 * qm := by nlinarith
+  have h2 : (1 + 5 * F.u) * ((1 + F.u) * |k|) ≤ 41 / 40 * |k| := by
+    have : (1 + 5 * F.u) * (1 + F.u) ≤ 41 / 40 := by nlinarith
+    nlinarith
+  have h3 := mul_le_mul_of_nonneg_right h1 he
+  have h4 := mul_le_mul_of_nonneg_right h2 he
+  nlinarith
+
+theorem C05_div_scalar_rescale_partial (F : Fmt) (hF : WorkFmt F) (qm k s c : Rat) (hk : k ≠ 0)
+    (hc : |c| ≤ qm) (yq rq : Rat)
+    (hy : F.mul (F.div (.fin s) (.fin k)) (.fin c) = .fin yq)
+    (hr : F.div (F.mul (.fin s) (.fin c)) (.fin k) = .fin rq) :
+    |yq - rq| ≤ 5 * F.u * |rq| + (251 / 250 * qm + 101 / 50 + 41 / 40 * (1 / |k|)) * F.eta := by
+  have h := rescale_div_general F hF k s c yq rq hk hy hr
+  rw [abs_inv, ← one_div] at h
+  obtain ⟨hu, -⟩ := u_eta_work F hF
+  have hu0 := F.u_nonneg
+  have he := F.eta_nonneg
+  have hk' : 0 ≤ 1 / |k| := by positivity
+  have hc0 := abs_nonneg c
+  have h1 : (1 + F.u) * |c| ≤ 251 / 250 * qm := by nlinarith
+  have h2 : (1 + 5 * F.u) * ((1 + F.u) * (1 / |k|)) ≤ 41 / 40 * (1 / |k|) := by
+    have : (1 + 5 * F.u) * (1 + F.u) ≤ 41 / 40 := by nlinarith
+    nlinarith
+  have h3 := mul_le_mul_of_nonneg_right h1 he
+  have h4 := mul_le_mul_of_nonneg_right h2 he
+  nlinarith
+
+/-! ## T7 — re-quantizing operations (softmax, where) -/
+
+theorem C05_softmax_is_requant (q : QB) (oracle : T FV) :
+    qbSoftmax q oracle = requant q.F q.Q oracle (softmaxScale q.F q.Q) := rfl
+
+theorem C05_where_is_requant (q : QB) (hq : q.axis = none) (oracle : T FV) :
+    qbWhere q oracle = requant q.F q.Q oracle (q.scale.get 0) := by
+  unfold qbWhere; rw [hq]
+
+/-- T7: `requant` is the symmetric quantizer applied elementwise with the scalar scale, and its
+result is a well-formed per-tensor value that dequantizes elementwise. -/
+theorem C05_requant_is_symmetric_quantization (F : Fmt) (Q : QT) (x : T FV) (scale : FV) :
+    ∃ r y, requant F Q x scale = .qb r ∧ r.PerTensor ∧ r.F = F ∧ r.Q = Q ∧ r.size = x.shape ∧
+      r.scale.get 0 = scale ∧ r.data.shape = x.shape ∧ r.deq = .ok y ∧ y.shape = x.shape ∧
+      ∀ n, n < prod x.shape →
+        r.data.get n = symCode F Q (x.get n) scale ∧
+        y.get n = symDeq F (symCode F Q (x.get n) scale) scale := by
+  obtain ⟨r, h1, h2, h3, h4, h5, h6, h7, h8, h9⟩ := requant_eq F Q x scale
+  have hr : r.PerTensor := ⟨h4, by rw [h6], by rw [h6]; rfl, by rw [h8, h7]⟩
+  have hs : r.scale.get 0 = scale := by rw [h6]; rfl
+  refine ⟨r, _, h1, hr, h2, h3, h5, hs, h7, deq_per_tensor r hr, h7, ?_⟩
+  intro n hn
+  refine ⟨h9 n hn, ?_⟩
+  rw [T.get_map _ _ _ (by rw [h8]; exact hn), h9 n hn]
+  simp only [QB.deqFn, h2, hs]
+
+/-- T7 (corollary of C01): every dequantized element of a re-quantized result is, up to the
+rounding allowance `epsC01`, at least as close to the float result as any point of the output
+grid `s·V_Q`. -/
+theorem C05_requant_nearest (F : Fmt) (hF : WorkFmt F) (Q : QT) (x : T FV) (s : Rat) (hs : 0 < s)
+    (r : QB) (hr : requant F Q x (.fin s) = .qb r) (y : T FV) (hy : r.deq = .ok y)
+    (n : Nat) (hn : n < prod x.shape) (xq c yq : Rat) (hx : x.get n = .fin xq)
+    (hc : r.data.get n = .fin c) (hyq : y.get n = .fin yq) :
+    ∀ v, Q.InGrid v → |yq - xq| ≤ |s * v - xq| + epsC01 F xq s c := by
+  obtain ⟨r', y', h1, -, -, -, -, -, -, h8, -, h10⟩ :=
+    C05_requant_is_symmetric_quantization F Q x (.fin s)
+  rw [hr] at h1
+  injection h1 with h1
+  subst h1
+  rw [hy] at h8
+  injection h8 with h8
+  subst h8
+  obtain ⟨e1, e2⟩ := h10 n hn
+  rw [hx] at e1 e2
+  rw [hc] at e1
+  rw [← e1, hyq] at e2
+  exact C01_nearest F hF Q xq s hs c yq e1.symm e2.symm
+
+/-- T7 (int8, "within one step of the output scale"): when `x / s` lies in the int8 range, the
+dequantized value is within half a step `s / 2` of `x`, up to the rounding allowance. -/
+theorem C05_requant_within_half_step_int8 (F : Fmt) (hF : WorkFmt F) (xq s : Rat) (hs : 0 < s)
+    (hlo : -128 ≤ xq / s) (hhi : xq / s ≤ 127) (c yq : Rat)
+    (hc : symCode F .qint8 (.fin xq) (.fin s) = .fin c) (hy : symDeq F (.fin c) (.fin s) = .fin yq) :
+    |yq - xq| ≤ s / 2 + epsC01 F xq s c := by
+  have h1 : -128 ≤ rhe (xq / s) := by
+    have := rhe_mono (a := ((-128 : Int) : Rat)) (b := xq / s) (by push_cast; exact hlo)
+    rwa [rhe_int] at this
+  have h2 : rhe (xq / s) ≤ 127 := by
+    have := rhe_mono (a := xq / s) (b := ((127 : Int) : Rat)) (by push_cast; exact hhi)
+    rwa [rhe_int] at this
+  have hn := C01_nearest F hF .qint8 xq s hs c yq hc hy (rhe (xq / s)) ⟨_, rfl, h1, h2⟩
+  have he := rhe_err (xq / s)
+  have e : s * (rhe (xq / s) : Rat) - xq = s * ((rhe (xq / s) : Rat) - xq / s) := by
+    field_simp
+  rw [e, abs_mul, abs_of_pos hs] at hn
+  have := mul_le_mul_of_nonneg_left he hs.le
+  linarith
+
+/-! ## T8 — integer matrix product -/
+
+/-- T8: the integer GEMM computes the exact sums of products of the codes. -/
+theorem C05_int_mm_exact (a b : T FV) (n m p : Nat) (ha : a.shape = [n, m]) (hb : b.shape = [m, p])
+    (ca cb : Nat → Int) (hca : ∀ idx, idx < n * m → a.get idx = .fin (ca idx))
+    (hcb : ∀ idx, idx < m * p → b.get idx = .fin (cb idx)) :
+    ∃ o, intMm a b = some o ∧ o.shape = [n, p] ∧
+      ∀ i j, i < n → j < p →
+        o.get (i * p + j) = ((List.range m).map fun k => ca (i * m + k) * cb (k * p + j)).sum := by
+  obtain ⟨o, h1, h2, -, h4⟩ := intMm_eq a b n m p ha hb ca cb hca hcb
+  exact ⟨o, h1, h2, h4⟩
+
+/-- T8: with int8 codes and an inner dimension of at most 131071 the sums fit in int32. -/
+theorem C05_int32_no_overflow (a b : T FV) (n m p : Nat) (ha : a.shape = [n, m])
+    (hb : b.shape = [m, p]) (ca cb : Nat → Int)
+    (hca : ∀ idx, idx < n * m → a.get idx = .fin (ca idx))
+    (hcb : ∀ idx, idx < m * p → b.get idx = .fin (cb idx))
+    (hba : ∀ idx, -128 ≤ ca idx ∧ ca idx ≤ 127) (hbb : ∀ idx, -128 ≤ cb idx ∧ cb idx ≤ 127)
+    (hm : m ≤ 131071) :
+    ∃ o, intMm a b = some o ∧ ∀ i j, i < n → j < p → |o.get (i * p + j)| < 2 ^ 31 := by
+  obtain ⟨o, h1, -, h3⟩ := C05_int_mm_exact a b n m p ha hb ca cb hca hcb
+  refine ⟨o, h1, fun i j hi hj => ?_⟩
+  rw [h3 i j hi hj]
+  have hb := abs_sum_le (fun k => ca (i * m + k) * cb (k * p + j)) (List.range m) 16384 (by
+    intro k _
+    have h1 := hba (i * m + k)
+    have h2 := hbb (k * p + j)
+    rw [abs_mul]
+    have e1 : |ca (i * m + k)| ≤ 128 := abs_le.2 ⟨by omega, by omega⟩
+    have e2 : |cb (k * p + j)| ≤ 128 := abs_le.2 ⟨by omega, by omega⟩
+    calc |ca (i * m + k)| * |cb (k * p + j)| ≤ 128 * 128 :=
+          mul_le_mul e1 e2 (abs_nonneg _) (by norm_num)
+      _ = 16384 := by norm_num)
+  rw [List.length_range] at hb
+  have : (m : Int) ≤ 131071 := by exact_mod_cast hm
+  omega
+
+/-! ## T9 — comparison -/
+
+/-- T9: with a positive scale, comparing codes is comparing the exact products. -/
+theorem C05_lt_exact (s c1 c2 : Rat) (hs : 0 < s) : c1 < c2 ↔ s * c1 < s * c2 :=
+  (mul_lt_mul_iff_right₀ hs).symm
+
+/-- T9: rounding is monotone — if `c1 ≤ c2` the float comparison of the dequantized values never
+says `deq c2 < deq c1`. -/
+theorem C05_lt_float_monotone (F : Fmt) (hF : WorkFmt F) (s : Rat) (hs : 0 < s) (c1 c2 y1 y2 : Rat)
+    (h : c1 ≤ c2) (h1 : F.mul (.fin s) (.fin c1) = .fin y1) (h2 : F.mul (.fin s) (.fin c2) = .fin y2) :
+    ¬ y2 < y1 := by
+  have := lt_float_monotone_core F hF s hs c1 c2 h
+  simp only [symDeq, h1, h2, ltCodes, decide_eq_false_iff_not] at this
+  exact this
+
+/-- T9 at the level of the comparison used by `qbLt` (infinite results included). -/
+theorem C05_lt_codes_monotone (F : Fmt) (hF : WorkFmt F) (s : Rat) (hs : 0 < s) (c1 c2 : Rat)
+    (h : c1 ≤ c2) : ltCodes (symDeq F (.fin c2) (.fin s)) (symDeq F (.fin c1) (.fin s)) = false :=
+  lt_float_monotone_core F hF s hs c1 c2 h
+
+/-! ## non-vacuity: the hypotheses are satisfiable on a concrete value
+`exQ` : float16 / qint8, codes `[[1, -2, 3], [4, 5, -6]]`, scale `1/4`. -/
+
+/-- T1 with a `permute`: the float program is valid, the quantized one returns a `[3, 2]` value
+that dequantizes to the permuted tensor. -/
+example : ∃ d d' r, exQ.deq = .ok d ∧ (MoveOp.permute [1, 0]).apply d = some d' ∧
+    qbMove (.permute [1, 0]) exQ = .qb r ∧ r.deq = .ok d' ∧ r.size = [3, 2] := by
+  have hd := deq_per_tensor exQ exQ_perTensor
+  obtain ⟨r, h1, h2, -, h4, -⟩ :=
+    (C05_move_commutes exQ exQ_perTensor (.permute [1, 0]) _ hd).1 _ rfl
+  exact ⟨_, _, r, hd, rfl, h1, h2, h4⟩
+
+/-- T1 with a `slice` (columns 0 and 1). -/
+example : ∃ d d' r, exQ.deq = .ok d ∧ (MoveOp.slice 1 0 2 1).apply d = some d' ∧
+    qbMove (.slice 1 0 2 1) exQ = .qb r ∧ r.deq = .ok d' ∧ r.size = [2, 2] := by
+  have hd := deq_per_tensor exQ exQ_perTensor
+  obtain ⟨r, h1, h2, -, h4, -⟩ :=
+    (C05_move_commutes exQ exQ_perTensor (.slice 1 0 2 1) _ hd).1 _ rfl
+  exact ⟨_, _, r, hd, rfl, h1, h2, h4⟩
+
+/-- T1, failing side: an invalid permutation fails in both programs. -/
+example : ∃ d, exQ.deq = .ok d ∧ (MoveOp.permute [0, 0]).apply d = none ∧
+    qbMove (.permute [0, 0]) exQ = .fail .runtimeError := by
+  have hd := deq_per_tensor exQ exQ_perTensor
+  exact ⟨_, hd, rfl, (C05_move_commutes exQ exQ_perTensor (.permute [0, 0]) _ hd).2 rfl⟩
+
+/-- T10 with a three-step program. -/
+example : ∃ d d' r, exQ.deq = .ok d ∧
+    runF [.transpose 0 1, .unsqueeze 0, .select 1 (-1)] d = some d' ∧
+    runQ [.transpose 0 1, .unsqueeze 0, .select 1 (-1)] (.qb exQ) = .qb r ∧ r.deq = .ok d' ∧
+    r.size = [1, 2] := by
+  have hd := deq_per_tensor exQ exQ_perTensor
+  obtain ⟨r, h1, h2, -, h4⟩ := C05_programs_move
+    [.transpose 0 1, .unsqueeze 0, .select 1 (-1)] exQ exQ_perTensor _ _ hd rfl
+  exact ⟨_, _, r, hd, rfl, h1, h2, h4 rfl⟩
+
+/-- T3 with a `cat` of the value with itself along dim 0. -/
+example : ∃ d d' r, exQ.deq = .ok d ∧ T.cat? [d, d] 0 = some d' ∧
+    qbCat [.qb exQ, .qb exQ] 0 = .qb r ∧ r.deq = .ok d' ∧ r.size = [4, 3] := by
+  have hd := deq_per_tensor exQ exQ_perTensor
+  obtain ⟨r, h1, h2, h3⟩ :=
+    (C05_cat_commutes exQ exQ exQ_perTensor exQ_perTensor rfl rfl rfl (by simp [scaleEqual])
+      _ _ hd hd 0).1 _ rfl
+  exact ⟨_, _, r, hd, rfl, h1, h2, h3⟩
+
+/-- T3 with a `split` in chunks of 2 columns (last chunk smaller). -/
+example : ∃ d ds, ∃ rs : List QB, exQ.deq = .ok d ∧ d.split? 2 1 = some ds ∧ ds.length = 2 ∧
+    qbSplit true exQ 2 1 = .listV (rs.map Val.qb) ∧ rs.map QB.deq = ds.map Except.ok ∧
+    rs.map QB.size = [[2, 2], [2, 1]] := by
+  have hd := deq_per_tensor exQ exQ_perTensor
+  obtain ⟨rs, h1, h2, h3⟩ := (C05_split_commutes exQ exQ_perTensor _ hd 2 1).1 _ rfl
+  exact ⟨_, _, rs, hd, rfl, rfl, h1, h2, h3.trans rfl⟩
+
+/-- T4 / T5 on `exQ`. -/
+example : ∃ d r, exQ.deq = .ok d ∧ qbNeg exQ = .qb r ∧ r.deq = .ok (d.map FV.neg) := by
+  have hd := deq_per_tensor exQ exQ_perTensor
+  obtain ⟨r, h1, h2⟩ := C05_neg_commutes exQ exQ_perTensor (by simp [WorkFmt, exQ]) rfl
+    (by
+      intro v hv
+      simp only [exQ, Array.mem_def, List.mem_cons, List.not_mem_nil, or_false] at hv
+      rcases hv with rfl | rfl | rfl | rfl | rfl | rfl
+      · exact ⟨1, by norm_num, by omega, by omega⟩
+      · exact ⟨-2, by norm_num, by omega, by omega⟩
+      · exact ⟨3, by norm_num, by omega, by omega⟩
+      · exact ⟨4, by norm_num, by omega, by omega⟩
+      · exact ⟨5, by norm_num, by omega, by omega⟩
+      · exact ⟨-6, by norm_num, by omega, by omega⟩) _ hd
+  exact ⟨_, r, hd, h1, h2⟩
+
+example : ∃ d r, exQ.deq = .ok d ∧ qbRelu exQ = .qb r ∧ r.deq = .ok (d.map reluV) := by
+  have hd := deq_per_tensor exQ exQ_perTensor
+  obtain ⟨r, h1, h2⟩ := C05_relu_commutes exQ exQ_perTensor (by simp [WorkFmt, exQ]) rfl (1 / 4) rfl
+    (by norm_num)
+    (by
+      intro v hv
+      simp only [exQ, Array.mem_def, List.mem_cons, List.not_mem_nil, or_false] at hv
+      rcases hv with rfl | rfl | rfl | rfl | rfl | rfl <;> exact ⟨_, rfl⟩) _ hd
+  exact ⟨_, r, hd, h1, h2⟩
+
+/-- T6 at float16, scale 819/8192 (= float16(0.1)), code 7, `k = 3`: the two results differ
+(537/256 vs 1075/512) and satisfy the relation. -/
+example : specRescale f16 127 3 (.fin (537 / 256)) (.fin (1075 / 512)) = true :=
+  C05_mul_scalar_rescale f16 (by simp [WorkFmt]) 127 3 (819 / 8192)
+    (repB_sound f16 _ (by decide +kernel)) 7 (by norm_num) (by norm_num) _ _
+    (by decide +kernel) (by decide +kernel)
+
+/-- T6, division by 3. -/
+example : specRescale f16 127 3 (.fin (1911 / 8192)) (.fin (1911 / 8192)) = true :=
+  C05_div_scalar_rescale f16 (by simp [WorkFmt]) 127 3 (819 / 8192) (by norm_num)
+    (repB_sound f16 _ (by decide +kernel)) 7 (by norm_num) (by norm_num) _ _
+    (by decide +kernel) (by decide +kernel)
+
+/-- T7: softmax output 1/3 at float16 / qint8 (scale 129/16384, code 42, dequantized 677/2048). -/
+example : |(677 / 2048 : Rat) - 1 / 3| ≤ (129 / 16384 : Rat) / 2 + epsC01 f16 (1 / 3) (129 / 16384) 42 :=
+  C05_requant_within_half_step_int8 f16 (by simp [WorkFmt]) (1 / 3) (129 / 16384) (by norm_num)
+    (by norm_num) (by norm_num) 42 (677 / 2048) (by decide +kernel) (by decide +kernel)
 
 end Quanto
